@@ -137,6 +137,8 @@ def render_handler(spec, ctx_text, id_text):
         out.append("  resume_from: %s" % nu_str(id_text(res["after"])))
     else:
         out.append("  resume_from: %s" % nu_str(res))
+    if spec.get("pulse"):
+        out.append("  pulse: %d" % spec["pulse"])
     ro = []
     if spec.get("suffix"):
         ro.append("suffix: %s" % nu_str(spec["suffix"]))
